@@ -135,6 +135,23 @@ func c12Scenarios(cfg runCfg) []Scenario {
 func c12Run(t *testing.T, sc Scenario, res *Result) {
 	fl := map[string]string{"rapid.checks": "200000", "rapid.nofailfile": "true", "rapid.shrinktime": "20s", "rapid.seed": fmt.Sprint(sc.Seed%1000003 + 1)}
 	var final any
+	// how the property fails: Fatalf, a panic whose message depends on the data, or a runtime error whose text does
+	mode := int(mix(sc.Seed, 0x12) % 3)
+	failNow := func(x *X, v any) {
+		switch mode {
+		case 0:
+			x.fail(fkFatalf, 0)
+		case 1:
+			x.inv.Intents = append(x.inv.Intents, Intent{Kind: "panic-data", Panic: true, Msg: fmt.Sprintf("bad value %v", v), Where: "body"})
+			panic(fmt.Sprintf("bad value %v", v))
+		default:
+			n, _ := intView(v)
+			idx := int(uint64(n)%5) + 3
+			x.inv.Intents = append(x.inv.Intents, Intent{Kind: "rt-index-data", Panic: true, Msg: fmt.Sprintf("runtime error: index out of range [%d] with length 3", idx), Where: "body"})
+			_ = make([]int, 3)[idx+zeroInt]
+		}
+	}
+	res.inc(fmt.Sprintf("failure_mode:%d", mode))
 	var body func(x *X)
 	var want string
 	var isExact func(v any) (bool, string)
@@ -160,15 +177,15 @@ func c12Run(t *testing.T, sc Scenario, res *Result) {
 			switch dir {
 			case "uge":
 				if rv.Uint() >= uv {
-					x.fail(fkFatalf, 0)
+					failNow(x, v)
 				}
 			case "ge":
 				if rv.Int() >= sv {
-					x.fail(fkFatalf, 0)
+					failNow(x, v)
 				}
 			default:
 				if rv.Int() <= sv {
-					x.fail(fkFatalf, 0)
+					failNow(x, v)
 				}
 			}
 		}
@@ -202,7 +219,7 @@ func c12Run(t *testing.T, sc Scenario, res *Result) {
 			v := x.draw(g, "c")
 			final = v
 			if count(v) >= sc.K {
-				x.fail(fkFatalf, 0)
+				failNow(x, v)
 			}
 		}
 		isExact = func(v any) (bool, string) {
@@ -248,7 +265,7 @@ func c12Run(t *testing.T, sc Scenario, res *Result) {
 		res.inconclusive("threshold never reached within 200000 cases: " + want)
 		return
 	}
-	if cr.rp.Kind != "failed" {
+	if cr.rp.Kind != "failed" && cr.rp.Kind != "panic" {
 		res.violate(sc, "c12/verdict", "unexpected verdict "+cr.rp.Kind+": "+clip(cr.rp.Raw, 200), map[string]any{"want": want})
 		return
 	}
